@@ -28,8 +28,8 @@ var solverTable = []solverCfg{
 	{"z3-new", func(f string, s, seed int) []string {
 		return []string{"z3-new", fmt.Sprintf("-T:%d", s), fmt.Sprintf("smt.random_seed=%d", seed), fmt.Sprintf("sat.random_seed=%d", seed), f}
 	}},
-	{"z3-new/seed2", func(f string, s, seed int) []string {
-		return []string{"z3-new", fmt.Sprintf("-T:%d", s), fmt.Sprintf("smt.random_seed=%d", seed+101), fmt.Sprintf("sat.random_seed=%d", seed+101), "smt.arith.random_initial_value=true", f}
+	{"z3-new/arith2", func(f string, s, seed int) []string {
+		return []string{"z3-new", fmt.Sprintf("-T:%d", s), fmt.Sprintf("smt.random_seed=%d", seed+101), fmt.Sprintf("sat.random_seed=%d", seed+101), "smt.arith.solver=2", f}
 	}},
 	{"z3", func(f string, s, seed int) []string {
 		return []string{"z3", fmt.Sprintf("-T:%d", s), fmt.Sprintf("smt.random_seed=%d", seed), f}
